@@ -281,3 +281,51 @@ def maxerr(a, b):
     a = np.asarray(a, dtype=np.float64)
     b = np.asarray(b, dtype=np.float64)
     return float(np.max(np.abs(a - b))) if a.size else 0.0
+
+
+# --------------------------------------------------------------------------
+# conditioning-aware tolerances
+#
+# The solution of (I - Q) x = b computed in double precision carries an error of about eps * cond(I - Q)
+# whatever the algorithm, and stiff chains (weights spread over several decades on a tree-like support) reach
+# cond ~ 1e6 and more.  Checks that compare *solutions* (not residuals) therefore add K_COND * eps * cond to
+# their base tolerance; measured error / (eps * cond) stays below 0.4 on the unchanged tree.
+
+EPS = float(np.finfo(np.float64).eps)
+K_COND = 1e3
+
+
+def cond_free(T, absorbing):
+    """2-norm condition number of I - Q on the states outside `absorbing` (1.0 if there are none)."""
+    n = T.shape[0]
+    ab = set(int(a) for a in absorbing)
+    free = [i for i in range(n) if i not in ab]
+    if not free:
+        return 1.0
+    c = float(np.linalg.cond(np.eye(len(free)) - T[np.ix_(free, free)]))
+    return c if np.isfinite(c) else 1e300
+
+
+def cond_slack(cond):
+    return K_COND * EPS * cond
+
+
+UTIL = {}      # name -> largest (observed error / tolerance) seen; calibration aid only, never evidence
+
+
+def within(name, err, tol):
+    """max(err / tol) <= 1 with elementwise err, tol; records the utilisation under `name`."""
+    err = np.abs(np.asarray(err, dtype=np.float64))
+    tol = np.broadcast_to(np.asarray(tol, dtype=np.float64), err.shape)
+    if err.size == 0:
+        return True
+    if not np.all(np.isfinite(err)):
+        UTIL[name] = float("inf")
+        return False
+    with np.errstate(divide="ignore", invalid="ignore"):
+        u = np.where(err == 0, 0.0, err / tol)
+    u = float(np.max(u))
+    if u > UTIL.get(name, 0.0):
+        UTIL[name] = u
+    return u <= 1.0
+
